@@ -26,6 +26,8 @@ struct Case {
     resp_v10: bool,
     /// how the flow got to the head (drive::recv::Reader::new_route)
     route: usize,
+    /// a field with an empty value precedes the Content-Length line
+    empty_field: bool,
     /// 200, 404, or a redirect with a Location (only with a Content-Length: a redirect without framing has no body)
     status: u16,
     req_close: bool,
@@ -36,10 +38,14 @@ fn run(case: &Case, st: &mut Stats) -> Result<(), String> {
     let status = if case.n.is_none() && (300..400).contains(&case.status) { 200 } else { case.status };
     let is_redirect = (300..400).contains(&status);
     let decoration = format!(
-        "{}{}",
+        "{}{}{}",
         if is_redirect { "Location: /next\r\n" } else { "" },
-        if case.resp_close { "Connection: close\r\n" } else { "" }
+        if case.resp_close { "Connection: close\r\n" } else { "" },
+        if case.empty_field { "X-Empty:\r\n" } else { "" }
     );
+    if case.empty_field {
+        st.class("empty_valued_field_before_the_framing_header");
+    }
     let head = match case.n {
         Some(n) => format!("HTTP/1.{} {} OK\r\n{}Content-Length: {}\r\nX-A: b\r\n\r\n", if case.resp_v10 { 0 } else { 1 }, status, decoration, n),
         None => format!("HTTP/1.{} {} OK\r\n{}X-A: b\r\n\r\n", if case.resp_v10 { 0 } else { 1 }, status, decoration),
@@ -47,7 +53,7 @@ fn run(case: &Case, st: &mut Stats) -> Result<(), String> {
     // Content-Length: 0 has no body state on the Flow API (C06 owns that); the Call API still hands out a reader
     let api = if case.n == Some(0) { Api::Call } else { case.api };
     // a 3xx head offered in two pieces may be cut after its Location line, where the known finding K1 (C05) applies: not split here
-    let route = if is_redirect && case.route == 4 {
+    let route = if is_redirect && matches!(case.route, 4 | 6 | 7 | 8) {
         st.excluded(1);
         0
     } else {
@@ -201,7 +207,7 @@ fn run(case: &Case, st: &mut Stats) -> Result<(), String> {
             st.sample(json!({"api": format!("{:?}", case.api), "content_length": case.n, "steps_arrival_out": case.steps}));
         }
     }
-    st.describe(|| json!({"api": format!("{:?}", case.api), "content_length": case.n, "route_to_the_head": case.route, "status": case.status, "request_connection_close": case.req_close, "response_connection_close": case.resp_close, "req_http10": case.req_v10, "resp_http10": case.resp_v10, "steps_arrival_out": case.steps}));
+    st.describe(|| json!({"api": format!("{:?}", case.api), "content_length": case.n, "route_to_the_head": case.route, "empty_valued_field_before_content_length": case.empty_field, "status": case.status, "request_connection_close": case.req_close, "response_connection_close": case.resp_close, "req_http10": case.req_v10, "resp_http10": case.resp_v10, "steps_arrival_out": case.steps}));
     Ok(())
 }
 
@@ -252,16 +258,17 @@ fn exec_random(t: &mut Tape, st: &mut Stats) -> Result<(), String> {
     let resp_v10 = t.chance(25);
     // the flow may have got to the head on another route: a late 100 in the same window as the head or before it, a 100 seen
     // while awaiting it, the head in two pieces
-    let route = if t.chance(30) { t.range(1, 4) } else { 0 };
+    let route = if t.chance(30) { *t.pick(&[1usize, 2, 3, 4, 6, 7, 8]) } else { 0 };
     // other statuses (a redirect body must be delivered like any other) and close conditions on either side
     let status = if t.chance(30) { *t.pick(&[404u16, 301, 302, 303, 307, 308, 300, 399]) } else { 200 };
     let req_close = t.chance(15);
     let resp_close = t.chance(15);
+    let empty_field = t.chance(12);
     st.case_digest = t.digest();
     if (300..400).contains(&status) && n.is_some() && (req_close || resp_close || req_v10) {
         st.class("redirect_body_on_a_closing_connection");
     }
-    run(&Case { api, n, steps, req_v10, resp_v10, route, status, req_close, resp_close }, st)
+    run(&Case { api, n, steps, req_v10, resp_v10, route, empty_field, status, req_close, resp_close }, st)
 }
 
 /// Small-scope exhaustive: N in 0..=4 and close-delimited x all 3-step schedules over (arrival 0..3+, out 0..3).
@@ -283,7 +290,7 @@ fn exec_small(t: &mut Tape, st: &mut Stats) -> Result<(), String> {
     steps.push((0, 64));
     let steps_sum: usize = steps.iter().map(|s| s.0 + s.1).sum();
     st.case_digest = t.digest();
-    run(&Case { api, n, steps, req_v10: false, resp_v10: false, route: (n.unwrap_or(5) as usize + steps_sum) % 5, status: [200u16, 302, 404, 307][steps_sum % 4], req_close: steps_sum % 3 == 1, resp_close: steps_sum % 7 < 2 }, st)
+    run(&Case { api, n, steps, req_v10: false, resp_v10: false, route: [0usize, 1, 2, 3, 4, 6, 7, 8][(n.unwrap_or(5) as usize + steps_sum) % 8], empty_field: steps_sum % 5 == 2, status: [200u16, 302, 404, 307][steps_sum % 4], req_close: steps_sum % 3 == 1, resp_close: steps_sum % 7 < 2 }, st)
 }
 
 pub static DEF: PropDef = PropDef {
@@ -291,7 +298,7 @@ pub static DEF: PropDef = PropDef {
     rule: "random: Content-Length N in {0..40, 41..3000, around 255/256/4096/10240/65535/65536/70000, 2^32+5, 2^63, u64::MAX} or no \
 framing (close-delimited) x histories of 1..30 reads (arrival increment, output size) with increments {0..8, exactly to the body \
 end, past the body end into a following response, random, 0} and buffers {1..7, large, random, 0, remaining-0..2}, on \
-Flow<RecvBody> and Call<RecvBody>, request/response versions 1.0/1.1; 30 % of the flows reach the head on another route (late 100 Continue in the same window as the head or in a call of its own, 100 seen while awaiting it, head in two pieces) and the reported counts must add up to the bytes that precede the body. 30 % carry another status (404, 3xx with Location: a redirect body is delivered like any other), 15 % each a Connection: close on the request / the response. Reference: every read returns (k,k), k = min(window, space, \
+Flow<RecvBody> and Call<RecvBody>, request/response versions 1.0/1.1; 30 % of the flows reach the head on another route (late 100 Continue in the same window as the head or in a call of its own, 100 seen while awaiting it, head in two pieces - cut in the middle or one, two, three bytes before its end) and the reported counts must add up to the bytes that precede the body. 30 % carry another status (404, 3xx with Location: a redirect body is delivered like any other), 15 % each a Connection: close on the request / the response; 12 % have a field with an empty value in front of the Content-Length line. Reference: every read returns (k,k), k = min(window, space, \
 remaining) [no remaining term when close-delimited], bytes equal; never more than N consumed; ended/can_proceed <=> N delivered; \
 close-delimited: can_proceed always, never ended, Cleanup verdict must-close with a reason. enumeration 'small': N in 0..=4 and \
 close-delimited x all 3-read schedules over 5 increments x 4 buffer sizes x both APIs. non-trivial = history with >= 3 reads whose \
